@@ -6,6 +6,15 @@ VC = ("contract-based deductive verification: verification conditions generated 
       "discharged by z3 (cvc5 for z3-unknowns); ")
 
 PROPS = {
+    "C14": {
+        "units": [api_ops.units, seam.units, walks.units_c14, wire_v3.units_emit], "level": "other", "design_ref": "7.14",
+        "technique": VC + "rely/guarantee under cooperative scheduling: control passes to other tasks only at an await; every "
+                     "operation keeps its request state in locals (request built from its own arguments and its own id, result "
+                     "taken from its own response), writes nothing on the client (frame), and the v3 message processor is "
+                     "re-verified with the shared discovery state havocked at every await under the rely condition",
+        "trusted_base": ["asyncio is single-threaded and cooperative (no preemption between awaits)",
+                         "each sender call has its own reply (one socket per exchange: C13)"],
+    },
     "C13": {
         "units": [udp.units], "level": "other", "design_ref": "7.13",
         "technique": VC + "send_udp's retry loop by an inductive invariant over ghost counters (attempts, open transports, timeouts "
